@@ -88,6 +88,7 @@ type eCase struct {
 	Rs    string      `json:"rs,omitempty"`    // relevant-status token: "-", pre:<d>, sub:<d>, eq:<d>
 	Resp  string      `json:"resp,omitempty"`  // response status passed to ProcessResponseHeaders (hex field)
 	Parts string      `json:"parts,omitempty"` // SecAuditLogParts (hex field)
+	Uri   string      `json:"uri,omitempty"`   // request URI handed to ProcessURI (method GET) before the Add* calls (hex field)
 	Bl    string      `json:"bl,omitempty"`    // "1": SecRequestBodyAccess On, SecRequestBodyLimit 64, SecRequestBodyInMemoryLimit 16
 	Body  string      `json:"body,omitempty"`  // raw request body written before the first ProcessRequestBody (hex field); no body processor is selected
 	Mode  string      `json:"mode"`
@@ -450,6 +451,10 @@ func runEngCase(waf coraza.WAF, c *eCase, cbp *[]string) string {
 		names[k] = k
 		return k
 	}
+	if c.Uri != "" {
+		// the request-line variables are substrings of this one string, as they are behind a connector
+		tx.ProcessURI(gen.Unfield(c.Uri), "GET", "HTTP/1.1")
+	}
 	for _, p := range c.Get {
 		tx.AddGetRequestArgument(name(p[0]), gen.Unfield(p[1]))
 	}
@@ -509,12 +514,13 @@ func runEngCase(waf coraza.WAF, c *eCase, cbp *[]string) string {
 // ---- generator ----
 
 var (
-	eKeys   = []string{"a", "b", "A", "c", "Ab"}
-	eVals   = []string{"x", "y", "xy", "X", "1", "2", "10", "", " x ", "%78", "x\x00", "%2578", "%252578", "10.1.2.3", "192.168.1.7", "1.2.3.4"} // double encodings: urlDecode is not idempotent
-	eTxKeys = []string{"s", "n", "k", "S", "1"}                                                                                                  // TX.1 exists from the start and is empty (capture slot)
-	eMapVar = []string{"ARGS_GET", "ARGS_POST", "ARGS", "REQUEST_HEADERS", "TX", "ARGS_NAMES", "ARGS_GET_NAMES", "ARGS_POST_NAMES", "REQUEST_HEADERS_NAMES", "MATCHED_VARS", "MATCHED_VARS_NAMES"}
-	eOps    = []string{"streq", "contains", "beginsWith", "endsWith", "within", "eq", "ge", "gt", "le", "lt", "pm", "unconditionalMatch", "noMatch", "ipMatch", "rx"}
-	eTfs    = []string{"lowercase", "uppercase", "trim", "urlDecode", "removeNulls", "hexEncode", "length", "trimLeft", "urlEncode"}
+	eKeys        = []string{"a", "b", "A", "c", "Ab"}
+	eVals        = []string{"x", "y", "xy", "X", "1", "2", "10", "", " x ", "%78", "x\x00", "%2578", "%252578", "10.1.2.3", "192.168.1.7", "1.2.3.4"} // double encodings: urlDecode is not idempotent
+	eTxKeys      = []string{"s", "n", "k", "S", "1"}                                                                                                  // TX.1 exists from the start and is empty (capture slot)
+	eMapVar      = []string{"ARGS_GET", "ARGS_POST", "ARGS", "REQUEST_HEADERS", "TX", "ARGS_NAMES", "ARGS_GET_NAMES", "ARGS_POST_NAMES", "REQUEST_HEADERS_NAMES", "MATCHED_VARS", "MATCHED_VARS_NAMES"}
+	eReqLineVars = []string{"REQUEST_URI", "REQUEST_URI_RAW", "REQUEST_FILENAME", "REQUEST_BASENAME", "QUERY_STRING", "REQUEST_LINE", "REQUEST_METHOD", "REQUEST_PROTOCOL"}
+	eOps         = []string{"streq", "contains", "beginsWith", "endsWith", "within", "eq", "ge", "gt", "le", "lt", "pm", "unconditionalMatch", "noMatch", "ipMatch", "rx"}
+	eTfs         = []string{"lowercase", "uppercase", "trim", "urlDecode", "removeNulls", "hexEncode", "length", "trimLeft", "urlEncode"}
 	// regex keys (`VAR:/re/`, `!VAR:/re/`, ctl …;VAR:/re/) over the key vocabulary; all inside the
 	// fragment of lean/Coraza/Model/Regex.lean; upper-case letters and \D \W \S because the code
 	// lower-cases the expression text for case-insensitive variables
@@ -554,6 +560,9 @@ func genLink(r *gen.R, p engProfile, first, prevDet bool, ruleIDs []int) (eLink,
 			t.K = "-"
 		} else if r.Chance(0.06) {
 			t.V = "ARGS_COMBINED_SIZE"
+			t.K = "-"
+		} else if r.Chance(0.1) {
+			t.V = r.Pick(eReqLineVars...)
 			t.K = "-"
 		} else {
 			t.V = eMapVar[r.Intn(len(eMapVar))]
@@ -1050,6 +1059,50 @@ func genEngCase(r *gen.R, p engProfile) *eCase {
 				pos = 1 + r.Intn(len(c.Rules))
 			}
 			c.Rules = append(c.Rules[:pos], append([]eRule{d}, c.Rules[pos:]...)...)
+		}
+	}
+	if r.Chance(0.35) {
+		// a request line: path of unreserved characters, sometimes a query (its arguments join ARGS_GET) and a fragment
+		u := r.Pick("/", "/a", "/a/b.php", "/Admin/Shell.PHP", "/x/", "/a.b/c_d-e", "/index", "/a//b", "/x.y")
+		if r.Chance(0.6) {
+			var qs []string
+			for k := 1 + r.Intn(3); k > 0; k-- {
+				qs = append(qs, r.Pick(eKeys...)+r.Pick("=", "=", "")+r.Pick("x", "y", "1", "X%20y", "%78", "a+b", "10", ""))
+			}
+			u += "?" + strings.Join(qs, "&")
+		}
+		if r.Chance(0.15) {
+			u += "#frag"
+		}
+		c.Uri = gen.Field(u)
+	}
+	if p.cache > 0 && c.Uri != "" && r.Chance(0.5) {
+		// two chains whose second link reads MATCHED_VAR through one transformation list: the first is started by the
+		// whole request URI, the second by a part of it (REQUEST_FILENAME, REQUEST_BASENAME, QUERY_STRING) — values
+		// that differ but live in the same memory
+		ph := 1 + r.Intn(2)
+		tfs := append([]string{}, curTfBase...)
+		if len(tfs) == 0 {
+			tfs = []string{"lowercase"}
+		}
+		mk := func(id int, v string, tfs2 []string) eRule {
+			return eRule{ID: id, Ph: ph, Mk: "-", Rt: "-", Sa: "-", Sev: -1, Tags: []string{}, Log: true, Audit: true, Links: []eLink{
+				{Tg: []eTarget{{V: v, K: "-", X: []string{}}}, Op: &eOp{N: "unconditionalMatch", A: "-"}, Tfs: []string{}, NA: []eNAct{}},
+				{Tg: []eTarget{{V: "MATCHED_VAR", K: "-", X: []string{}}}, Op: &eOp{N: r.Pick("endsWith", "contains", "streq"), A: gen.Field(r.Pick(".php", "?", "x", "/a", "b.php"))}, Tfs: tfs2, NA: []eNAct{}}}}
+		}
+		pair := []eRule{mk(1, r.Pick("REQUEST_URI_RAW", "REQUEST_URI", "REQUEST_LINE"), tfs), mk(2, r.Pick("REQUEST_FILENAME", "REQUEST_BASENAME", "QUERY_STRING", "REQUEST_URI"), tfs[:1+r.Intn(len(tfs))])}
+		if r.Chance(0.3) {
+			pair[0], pair[1] = pair[1], pair[0]
+		}
+		hasLow := false
+		for _, ru := range c.Rules {
+			if ru.ID >= 1 && ru.ID <= 4 {
+				hasLow = true
+			}
+		}
+		if !hasLow {
+			pos := r.Intn(len(c.Rules) + 1)
+			c.Rules = append(c.Rules[:pos], append(pair, c.Rules[pos:]...)...)
 		}
 	}
 	oddKeys := r.Chance(0.1) // non-ASCII names in some cases only: with regex keys they leave the modelled fragment
